@@ -154,7 +154,8 @@ def build_recording(tier):
     open(cases, "w").close()
     plan = [("Pipeline_c04.cfg", None, 60 if thorough else 6), ("Pipeline_c01sim.cfg", 300 if thorough else 12, None),
             ("Pipeline_sim.cfg", 500 if thorough else 12, None), ("Pipeline_c06sim.cfg", 400 if thorough else 12, None), ("Pipeline_c09sim.cfg", 300 if thorough else 18, None),
-            ("Pipeline_c06grp.cfg", None, 40 if thorough else 6), ("Pipeline_c14generics.cfg", None, 10 ** 6), ("Pipeline_c14types.cfg", None, 10 ** 6 if thorough else 16)]
+            ("Pipeline_c06grp.cfg", None, 40 if thorough else 6), ("Pipeline_c14generics.cfg", None, 10 ** 6), ("Pipeline_c14types.cfg", None, 10 ** 6 if thorough else 16),
+            ("Pipeline_c05val.cfg", None, 10 ** 6 if thorough else 14)]
     for cfgname, sim, take in plan:
         out = os.path.join(sc, cfgname + ".rcases")
         r = c.tlc("PipelineMC", cfgname, workers=1, out_file=out, simulate=("num=%d" % sim) if sim else None, depth=80 if sim else None, seed_=seed + 17, timeout=3000)
